@@ -138,7 +138,13 @@ func (m *messageSenderImpl) messageSenderForPeer(ctx context.Context, p peer.ID)
 	m.strmap[p] = ms
 	m.smlk.Unlock()
 
-	if err := ms.prepOrInvalidate(ctx); err != nil {
+	if invalidated, err := ms.prepOrInvalidate(ctx); err != nil {
+		if !invalidated {
+			// The context ended while waiting for the sender's lock. The sender was
+			// not touched and a request that picked it up in the meantime may be
+			// using it: only an invalidated sender may leave the map.
+			return nil, err
+		}
 		m.smlk.Lock()
 		defer m.smlk.Unlock()
 
@@ -182,17 +188,20 @@ func (ms *peerMessageSender) invalidate() {
 	}
 }
 
-func (ms *peerMessageSender) prepOrInvalidate(ctx context.Context) error {
+// prepOrInvalidate prepares the sender, invalidating it when that fails. It
+// reports whether it invalidated the sender: when the context ends before the
+// sender's lock is acquired the sender is left as it is.
+func (ms *peerMessageSender) prepOrInvalidate(ctx context.Context) (invalidated bool, err error) {
 	if err := ms.lk.Lock(ctx); err != nil {
-		return err
+		return false, err
 	}
 	defer ms.lk.Unlock()
 
 	if err := ms.prep(ctx); err != nil {
 		ms.invalidate()
-		return err
+		return true, err
 	}
-	return nil
+	return false, nil
 }
 
 func (ms *peerMessageSender) prep(ctx context.Context) error {
